@@ -25,6 +25,7 @@ fn run_case(c: &[String]) -> String {
         3 => text::highlight_check_case(c[1].parse().unwrap(), &cps(&c[2..])),
         4 => text::parse_text_case(&cps(&c[1..])),
         5 => text::parse_all_case(&cps(&c[1..])),
+        6 => text::parse_text_case(&cps(&c[2..])),
         10..=29 => area_num::run(c),
         30..=39 => area_str::run(c),
         40..=49 => area_lv::run(c),
